@@ -155,6 +155,31 @@ _amend("C19", "tech", "(fallback rebinding, loop-exit and counter rules),", "(fa
 _amend("C19", "text", "Decides (R19.1-R19.7, DESIGN.md §4 C19):", "Decides (R19.1-R19.9, DESIGN.md §4 C19):")
 _amend("C19", "text", "the JS bundle separator is confined to the JS media type;", "the `;\\n` bundle separator is used for exactly the media types that select the JavaScript minifier; the bundle reader delivers the pending separator suffix, arms it only between files and takes files from the front; no pointer to a per-loop variable is stored (watch-mode task map);")
 _amend("C19", "text", "Destination computation over directory trees, sync copying and watch mode are not decided.", "Destination computation over directory trees and sync copying are not decided.")
+# fourth pass
+_amend("C01", "text", "(R01.1-R01.15,", "(R01.1-R01.17,")
+_amend("C01", "text", "Decides fifteen structural", "Decides seventeen structural")
+_amend("C01", "text", "keeps the parentheses of an optional chain. Does not decide", "keeps the parentheses of an optional chain, the for-init `in` exclusion is only lifted inside brackets, and the ends-in-a-jump analysis looks through blocks only. Does not decide")
+_amend("C03", "text", "(R03.1-R03.4, DESIGN.md §4 C03):", "(R03.1-R03.5, DESIGN.md §4 C03):")
+_amend("C03", "text", "Decides four local clauses", "Decides five local clauses")
+_amend("C03", "text", "The trait tables are decided under C17.", "The look-ahead token buffer compacts before it resets its read position and no pointer into it is kept across a Peek. The trait tables are decided under C17.")
+_amend("C04", "text", "(R04.1-R04.3, DESIGN.md §4 C04):", "(R04.1-R04.4, DESIGN.md §4 C04):")
+_amend("C04", "text", "Decides three structural clauses only", "Decides four structural clauses only")
+_amend("C04", "text", "are confined to one-byte numbers. ", "are confined to one-byte numbers; white space inside a byte string is collapsed only in comment text (custom-property values, strings and URLs stay byte-identical). ")
+_amend("C05", "text", "(R05.1-R05.10,", "(R05.1-R05.12,")
+_amend("C06", "text", "(R06.1-R06.7,", "(R06.1-R06.8,")
+_amend("C07", "text", "(R07.1-R07.3, DESIGN.md §4 C07):", "(R07.1-R07.7, DESIGN.md §4 C07):")
+_amend("C07", "text", "Numeric equality is C08's subject and not decided here.", "The shape rules of minify.Number that numeric equality depends on (overlap-safe digit moves, no trailing dot, bounded precision, overflow guard of the exponent sum) are listed here too (R07.4-R07.7 = R08.3-R08.6); numeric equality as such is not decided.")
+_amend("C08", "text", "(R08.1-R08.5,", "(R08.1-R08.6,")
+_amend("C08", "text", "Decides five shape clauses only", "Decides six shape clauses only")
+_amend("C09", "text", "(R09.1, R09.3, R09.4, DESIGN.md §4 C09):", "(R09.1, R09.3-R09.6, DESIGN.md §4 C09):")
+_amend("C09", "text", "Decides three printer disciplines", "Decides five printer disciplines")
+_amend("C09", "text", "is only written behind the trailing-digit test. ", "is only written behind the trailing-digit test; no generated name is a reserved word (= R02.3); `in` loses its parentheses in a for-init only inside brackets (= R01.16). ")
+_amend("C10", "text", "(R10.1-R10.5,", "(R10.1-R10.6,")
+_amend("C10", "text", "Decides five structural clauses", "Decides six structural clauses")
+_amend("C12", "text", "(R12.1-R12.5,", "(R12.1-R12.6,")
+_amend("C14", "text", "(R14.1-R14.4,", "(R14.1-R14.5,")
+_amend("C19", "text", "(R19.1-R19.9,", "(R19.1-R19.10,")
+_amend("C20", "text", "(R20.1-R20.6", "(R20.1-R20.7")
 
 
 NOT_APPLICABLE = {
